@@ -107,7 +107,7 @@ type optObs struct {
 	Err      *string           `json:"err"`             // error of HandleOptions (nil = accepted)
 	TErr     *string           `json:"terr,omitempty"`  // error of Targets() (cli level)
 	Panic    string            `json:"panic,omitempty"` // panic anywhere
-	Fields   map[string]bool   `json:"fields"`          // every field of Features by Go name
+	Unmapped map[string]bool   `json:"unmapped,omitempty"` // fields of Features no feature key maps to
 	Feat     map[string]bool   `json:"feat"`            // feature key -> value through the hand-written table
 	Missing  []string          `json:"missing"`         // keys whose Go field does not exist
 	Template string            `json:"template"`
@@ -136,25 +136,35 @@ func observe(cu *golang.CodeUtils, keys []string, o *optObs) {
 	fs := cu.Features()
 	v := reflect.ValueOf(fs)
 	t := v.Type()
-	o.Fields = map[string]bool{}
+	fields := map[string]bool{} // every field of Features by Go name
 	byTag := map[string]string{}
 	for i := 0; i < t.NumField(); i++ {
 		if v.Field(i).Kind() == reflect.Bool {
-			o.Fields[t.Field(i).Name] = v.Field(i).Bool()
+			fields[t.Field(i).Name] = v.Field(i).Bool()
 		}
 		byTag[tagKey(t.Field(i))] = t.Field(i).Name
 	}
 	o.Feat = map[string]bool{}
 	o.Missing = []string{}
+	used := map[string]bool{}
 	for _, k := range keys {
 		fn, ok := featureField[k]
 		if !ok {
 			fn, ok = byTag[k]
 		}
-		if val, ok2 := o.Fields[fn]; ok && ok2 {
+		if val, ok2 := fields[fn]; ok && ok2 {
 			o.Feat[k] = val
+			used[fn] = true
 		} else {
 			o.Missing = append(o.Missing, k)
+		}
+	}
+	for fn, val := range fields {
+		if !used[fn] {
+			if o.Unmapped == nil {
+				o.Unmapped = map[string]bool{}
+			}
+			o.Unmapped[fn] = val
 		}
 	}
 	o.Template = cu.Template()
